@@ -577,4 +577,11 @@ def shared_cache_code_objects(extra=True):
     def merge_guard(frame):
         db = frame.f_locals.get('database')
         return db is not None and db._global_stats_lock._is_owned()
-    return codes, {merge: merge_guard}
+    guards = {merge: merge_guard}
+    # create_extractors serialises its miss path with a real lock (if the tree under test has it): a worker that is
+    # suspended while it owns a real lock would block the others outside the scheduler's control
+    lock = getattr(asttranslation, 'extractors_cache_lock', None)
+    if lock is not None and hasattr(lock, '_is_owned'):
+        ce = getattr(asttranslation.create_extractors, '__wrapped__', asttranslation.create_extractors).__code__
+        guards[ce] = lambda frame: lock._is_owned()
+    return codes, guards
